@@ -128,6 +128,62 @@ def oracle(case, rr):
     return bad
 
 
+
+# ------------------------------------------------------------------ correspondence with the model
+def m_status(x):
+    if isinstance(x, list):
+        return "err:" + str(x[1])
+    return str(x)
+
+
+def r_status(x):
+    if x.startswith("err:"):
+        return "err:" + cedar.RUST_ERR_CLASS.get(x[4:], x[4:])
+    return x
+
+
+def canon_model(s):
+    """-> None if the model declares the case outside its fragment (some status `out`)"""
+    if not (isinstance(s, list) and s and s[0] == "presp"):
+        return ("bad", repr(s)[:300])
+    dec = None if s[1] == "none" else str(s[1][1]).capitalize()
+    ids = lambda l: sorted(x.text() for x in l)
+    status = {kv[0].text(): m_status(kv[1]) for kv in s[6]}
+    subs = []
+    for sub in s[7]:
+        if not isinstance(sub, list):
+            subs.append(str(sub))
+        else:
+            subs.append((str(sub[0]).capitalize(), ids(sub[1]), {kv[0].text(): m_status(kv[1]) for kv in sub[2]}))
+    out = any(v == "out" for v in status.values()) or any(isinstance(x, tuple) and any(v == "out" for v in x[2].values()) for x in subs)
+    if out:
+        return None
+    return (dec, ids(s[2]), ids(s[3]), ids(s[4]), ids(s[5]), status, subs)
+
+
+def canon_rust(rr):
+    subs = []
+    for sub in rr["subs"]:
+        ra = sub["reauth"]
+        if "reauth_error" in ra:
+            subs.append("reauth_error")
+        else:
+            subs.append((ra["decision"], sorted(ra["reasons"]), {i: r_status(x) for i, x in ra["status"].items()}))
+    return (rr["decision"], rr["must"], rr["may"], rr["satisfied"], rr["errored"],
+            {i: r_status(x) for i, x in rr["status"].items()}, subs)
+
+
+def diff_model(m, r):
+    names = ["partial decision", "must_be_determining", "may_be_determining", "definitely_satisfied",
+             "definitely_errored", "per-policy partial status (buckets)"]
+    for k, n in enumerate(names):
+        if m[k] != r[k]:
+            return "%s: model %r, implementation %r" % (n, m[k], r[k])
+    for k, (a, b) in enumerate(zip(m[6], r[6])):
+        if a != b:
+            return "residuals differ semantically under sigma#%d (reauthorize): model %r, implementation %r" % (k, a, b)
+    return None
+
 # ------------------------------------------------------------------ case streams
 LAYOUTS = [(p, r, c) for p in (("known", pe.ALICE), ("unknown", ("User",)), ("unknown", None))
            for r in (("known", pe.PHOTO), ("unknown", ("Photo",)), ("unknown", None)) for c in (False, True)]
@@ -253,6 +309,7 @@ def near_miss_cmd(case):
 def run(rep, tier, seed):
     ob, dis, details, failures = fw.check_props(PROP_FILE, THEOREMS) if THEOREMS else (0, 0, {}, [])
     harness = fw.build_harness()
+    driver = fw.build_model_driver()
     rng = random.Random(seed)
     quick = tier == "quick"
     cases = table_cases(rng, tier)
@@ -262,14 +319,19 @@ def run(rep, tier, seed):
 
     rres = fw.run_rust(harness, [rust_cmd(c) for c in cases])
     nmres = fw.run_rust(harness, [near_miss_cmd(c) for c in nm])
+    frag = [i for i, c in enumerate(cases) if in_model_fragment(c)]
+    mcmds = [model_cmd(cases[i]) for i in frag]
+    mout = fw.run_model(driver, mcmds)
+    mres = dict(zip(frag, mout))
 
     stats = {"streams": {}, "partial_decision": {"Allow": 0, "Deny": 0, "None": 0}, "policy_status": {},
              "scratch_decision": {"Allow": 0, "Deny": 0}, "scratch_status": {}, "unknown_kinds": {},
-             "reauth_orig_differs": 0, "sigma_runs": 0, "harness_errors": 0}
+             "reauth_orig_differs": 0, "sigma_runs": 0, "harness_errors": 0,
+             "model_compared": 0, "model_outside_fragment": 0, "model_not_run": 0}
     distinct = set()
     ops = {}
     nviol = 0
-    for c, rr in zip(cases, rres):
+    for ci, (c, rr) in enumerate(zip(cases, rres)):
         stats["streams"][c["stream"]] = stats["streams"].get(c["stream"], 0) + 1
         if "harness_error" in rr:
             stats["harness_errors"] += 1
@@ -287,6 +349,24 @@ def run(rep, tier, seed):
                                "rust": trim(fw.run_rust(harness, [rust_cmd(small)])[0]),
                                "replay": "./check C13 --replay <this file>"})
             continue
+        if ci in mres:
+            m = canon_model(mres[ci])
+            if m is None:
+                stats["model_outside_fragment"] += 1
+            else:
+                stats["model_compared"] += 1
+                d = "model did not answer: %r" % (m,) if m[0] == "bad" else diff_model(m, canon_rust(rr))
+                if d:
+                    nviol += 1
+                    if nviol <= 25:
+                        rep.violation({"property": PROP, "kind": "implementation differs from the proven model (no oracle failure on this case)",
+                                       "difference": d, "model_function": "PE.is_authorized_partial / PE.reauthorize (coq/model/PE.v)",
+                                       "rust_entry_point": "Authorizer::is_authorized_core + PartialResponse::{decision,...,reauthorize}",
+                                       "theorems_whose_transfer_is_lost": THEOREMS, "case": describe(c), "rust": trim(rr),
+                                       "model": repr(mres[ci])[:3000]}, no_failing_input=True)
+                    continue
+        else:
+            stats["model_not_run"] += 1
         stats["partial_decision"][str(rr["decision"])] += 1
         for s in rr["status"].values():
             k = status_class(s)
@@ -334,6 +414,9 @@ def run(rep, tier, seed):
                                "sigma": {n: repr(v) for n, v in c["bad_sigmas"][k].items()},
                                "case": {"rust_cmd": near_miss_cmd(c)}, "rust": trim(rr)})
 
+    # vm_compute cross-check of the extracted model on a few (shortened: 2 substitutions) commands
+    xc = [model_cmd(dict(cases[i], sigmas=cases[i]["sigmas"][:2])) for i in (frag[:3] + frag[-3:])]
+    nx = fw.coq_crosscheck(xc, fw.run_model(driver, xc), PROP)
     for f in failures:
         rep.violation({"property": PROP, "kind": "proof obligation no longer checks", "detail": f}, no_failing_input=True)
     rep.coverage = {
@@ -346,6 +429,8 @@ def run(rep, tier, seed):
         "streams": stats["streams"], "partial_decision_histogram": stats["partial_decision"],
         "partial_policy_status": stats["policy_status"], "scratch_decision_histogram": stats["scratch_decision"],
         "scratch_policy_status": stats["scratch_status"], "unknown_layout_histogram": stats["unknown_kinds"],
+        "model_compared": stats["model_compared"], "model_outside_fragment": stats["model_outside_fragment"],
+        "model_not_run_ext_or_partial_store": stats["model_not_run"], "vm_compute_crosscheck_cases": nx,
         "near_miss_refused": refused, "reauthorize_with_original_entities_differs": stats["reauth_orig_differs"],
         "operator_histogram": ops,
         "samples": [describe(c) for c in (cases[:1] + cases[-1:])],
